@@ -372,6 +372,8 @@ func pairs(tier string) []Case {
 			sub := squ.State{s[i]}
 			cs = append(cs, Case{s.Names(), sub.Names(), "", false}, Case{sub.Names(), s.Names(), "  ", true})
 		}
+		// and against the bare skeleton: both features go (come) in one plan.
+		cs = append(cs, Case{s.Names(), nil, "", false}, Case{nil, s.Names(), "", false})
 	}
 	return cs
 }
